@@ -12,13 +12,13 @@ import overlay
 import vlib
 
 BASE = ("CONSTANTS Subs <- %(subs)s Objs <- %(objs)s Bcasters <- %(bc)s MaxOps = %(ops)d MaxEv = %(ev)d AllowStop = %(stop)s AllowRespawn = %(resp)s "
-        "SendTargets <- %(tg)s SendSenders <- %(sd)s\n KeyByValue = %(kbv)s DropDead = %(dd)s Export = %(exp)s\n"
+        "SendTargets <- %(tg)s SendSenders <- %(sd)s SendPayloads <- %(pl)s\n KeyByValue = %(kbv)s DropDead = %(dd)s Export = %(exp)s\n"
         "SPECIFICATION Spec\nINVARIANTS TypeOK C12_Exact C09_Finite ExportCase\n%(live)s")
 
 
-def cfg(subs="S2", objs="O2", bc="B1", ops=4, ev=3, stop=False, tg="NoTargets", sd="NoSenders", kbv=True, dd=True, exp=True, live=True, resp=False):
+def cfg(subs="S2", objs="O2", bc="B1", ops=4, ev=3, stop=False, tg="NoTargets", sd="NoSenders", kbv=True, dd=True, exp=True, live=True, resp=False, pl="PlainPayload"):
     b = lambda x: "TRUE" if x else "FALSE"
-    return BASE % dict(subs=subs, objs=objs, bc=bc, ops=ops, ev=ev, stop=b(stop), resp=b(resp), tg=tg, sd=sd, kbv=b(kbv), dd=b(dd), exp=b(exp),
+    return BASE % dict(subs=subs, objs=objs, bc=bc, ops=ops, ev=ev, stop=b(stop), resp=b(resp), tg=tg, sd=sd, pl=pl, kbv=b(kbv), dd=b(dd), exp=b(exp),
                        live="PROPERTIES C09_Live\n" if live else "")
 
 
@@ -30,9 +30,12 @@ PLAN = {
                          ("subs2_stop_ops5", dict(subs="S2", objs="O2", bc="B1", ops=5, ev=3, stop=True)),
                          ("respawn_ops5", dict(subs="S2", objs="O1", bc="B1", ops=5, ev=2, resp=True, stop=True))]},
     "C09": {"quick": [("dead_ops3", dict(subs="SM", objs="O1", bc="B1", ops=3, ev=2, stop=True, tg="AllTargets", sd="BothSenders")),
-                      ("dead_ops4_small", dict(subs="SM", objs="O1", bc="B1", ops=4, ev=1, stop=True, tg="SomeTargets", sd="NoSenders"))],
+                      ("dead_ops4_small", dict(subs="SM", objs="O1", bc="B1", ops=4, ev=1, stop=True, tg="SomeTargets", sd="NoSenders")),
+                      # the message goes out through Engine.Request; the message value is the untyped nil
+                      ("dead_req_nil_ops3", dict(subs="S1", objs="O1", bc="B1", ops=3, ev=1, stop=True, tg="AllTargets", sd="ReqSenders", pl="BothPayloads"))],
             "thorough": [("dead_ops4", dict(subs="SM", objs="O1", bc="B1", ops=4, ev=2, stop=True, tg="AllTargets", sd="BothSenders")),
-                         ("dead_ops5_small", dict(subs="SM", objs="O1", bc="B1", ops=5, ev=2, stop=True, tg="SomeTargets", sd="NoSenders"))]},
+                         ("dead_ops5_small", dict(subs="SM", objs="O1", bc="B1", ops=5, ev=2, stop=True, tg="SomeTargets", sd="NoSenders")),
+                         ("dead_req_nil_ops4", dict(subs="SM", objs="O1", bc="B1", ops=4, ev=1, stop=True, tg="AllTargets", sd="AllSenders", pl="BothPayloads"))]},
 }
 REGRESSION = {
     "C12": [("KeyByValue=FALSE", dict(subs="S2", objs="O2", bc="B1", ops=4, ev=2, kbv=False, exp=False, live=False), {"C12_Exact"})],
